@@ -21,8 +21,14 @@ def call_builtin(ex, f, args, kwargs, line):
         is_intlike, is_strlike, as_sstr, try_concrete_str, is_numlike
     name = f.t.__name__ if isinstance(f, TypeName) else f.name
     _used(ex, name)
+    if name == "super":
+        if len(args) == 2 and isinstance(args[0], ClassRef) and isinstance(args[1], Obj):
+            return SuperProxy(args[1], args[0].cls)
+        raise Unsupported("super() form")
     if name == "len":
         (x,) = args
+        if isinstance(x, RepList):
+            return mk_int(len(x.head) + len(x.base) * ghost.zmax0(x.count) + len(x.tail))
         if isinstance(x, (str, bytes, tuple)):
             return len(x)
         if isinstance(x, PList):
@@ -166,6 +172,8 @@ def call_builtin(ex, f, args, kwargs, line):
         if not args:
             return PList([])
         x = args[0]
+        if isinstance(x, RepList):
+            return RepList(x.base, x.count, x.tail, head=x.head)  # list(iterator) materialises it
         if isinstance(x, SList):
             return ex.engine.slist_copy(ex, x)
         return PList(ex.iter_concrete(x, line))
@@ -195,6 +203,10 @@ def call_builtin(ex, f, args, kwargs, line):
         raise Unsupported("dict(...)")
     if name == "reversed":
         (x,) = args
+        if isinstance(x, RepList):
+            r = RepList(list(reversed(x.base)), x.count, list(reversed(x.head)), head=list(reversed(x.tail)))
+            r.is_iterator = True
+            return r
         return PIter(list(reversed(ex.iter_concrete(x, line))))
     if name == "enumerate":
         items = ex.iter_concrete(args[0], line)
